@@ -388,23 +388,44 @@ func c12May(cfg *c12Cfg, u *string) (mayLoop, mayPriv, flaggedBoth bool) {
 }
 
 // c12FirstMatch: the rule table read independently (library CIDR containment, plain string ops).
+// A rule is a statement about a destination, not about its encoding (round 5, GAP-2):
+//   - an IP address literal sent as a domain name (IPv4, IPv6, IPv4-mapped, with or without an IPv6 zone) is
+//     matched by the IP ranges of a rule like the address it spells (netip.ParseAddr here, the matcher under test
+//     uses net.ParseIP), and — being domain-typed — by the domain patterns as well;
+//   - domain patterns are compared ASCII-case-insensitively on both sides (RFC 4343).
+//
+// "" = no opinion: a text with a '%' that is not an address literal (what it denotes is not defined).
 func c12FirstMatch(cfg *c12Cfg, d c12Dst) string {
 	if d.Form == "domain" && d.FQDN == "" {
 		return "DIRECT"
 	}
+	var addr net.IP
+	name := ""
+	if d.Form != "domain" {
+		addr = net.IP(d.IP)
+	} else {
+		name = c12AsciiLower(d.FQDN)
+		if a, err := netip.ParseAddr(d.FQDN); err == nil {
+			addr = net.IP(a.WithZone("").AsSlice())
+		} else if strings.IndexByte(d.FQDN, '%') >= 0 {
+			return ""
+		}
+	}
 	for _, r := range cfg.Rules {
-		if d.Form != "domain" {
+		if addr != nil {
 			for _, s := range r.IPRanges {
 				if s == "*" {
 					return r.Action
 				}
-				if _, n, err := net.ParseCIDR(s); err == nil && n.Contains(net.IP(d.IP)) {
+				if _, n, err := net.ParseCIDR(s); err == nil && n.Contains(addr) {
 					return r.Action
 				}
 			}
-		} else {
+		}
+		if d.Form == "domain" {
 			for _, s := range r.Domains {
-				if s == "*" || d.FQDN == s || strings.HasSuffix(d.FQDN, "."+s) {
+				p := c12AsciiLower(s)
+				if s == "*" || name == p || strings.HasSuffix(name, "."+p) {
 					return r.Action
 				}
 			}
@@ -569,8 +590,10 @@ func c12RunFind(c *core.Ctx, k c12Case) {
 		c.Violate(fmt.Sprintf("C12/%s/dst=%s", c12CmdName(cmd), class),
 			fmt.Sprintf("%s request to %s destination (request %x) by user %s without the allow flag: FindAction says %s, must be REJECT", c12CmdName(cmd), class, data, c12UserArg(k.User), impl), k)
 	}
-	if !mustReject && (public || both) && !(cmd == 3 && local && !strict) {
-		if want := c12FirstMatch(k.Cfg, d); want != impl {
+	// the rest: public destinations for everybody, every destination for a user with both flags, and a private
+	// destination for a user who may reach private networks (round 5)
+	if !mustReject && (public || both || (priv && mayPriv && !local)) && !(cmd == 3 && local && !strict) {
+		if want := c12FirstMatch(k.Cfg, d); want != "" && want != impl {
 			c.Violate(fmt.Sprintf("C12/%s/unaffected/dst=%s", c12CmdName(cmd), class),
 				fmt.Sprintf("destination %s, user %s: first matching rule says %s, FindAction says %s (request %x)", class, c12UserArg(k.User), want, impl, data), k)
 		}
@@ -1403,6 +1426,191 @@ func c12RuleSets(c *core.Ctx) [][]c12Rule {
 	return sets
 }
 
+// ---- round 5: rule lists × destination encodings (deterministic) ----------------------------------
+
+func c12AltCase(s string) string {
+	b := []byte(s)
+	up := true
+	for i, ch := range b {
+		if 'a' <= ch && ch <= 'z' {
+			if up {
+				b[i] = ch - 32
+			}
+			up = !up
+		} else if 'A' <= ch && ch <= 'Z' {
+			if !up {
+				b[i] = ch + 32
+			}
+			up = !up
+		}
+	}
+	return string(b)
+}
+
+// c12LiteralTexts spells one address as the domain-typed texts a client may send for it.
+func c12LiteralTexts(ip net.IP) []string {
+	var out []string
+	if v4 := ip.To4(); v4 != nil {
+		dotted := fmt.Sprintf("%d.%d.%d.%d", v4[0], v4[1], v4[2], v4[3])
+		out = append(out, dotted, "::ffff:"+dotted, "::FFFF:"+dotted,
+			fmt.Sprintf("::ffff:%x:%x", int(v4[0])<<8|int(v4[1]), int(v4[2])<<8|int(v4[3])),
+			fmt.Sprintf("0:0:0:0:0:FFFF:%02X%02X:%02X%02X", v4[0], v4[1], v4[2], v4[3]),
+			"::ffff:"+dotted+"%1")
+		return out
+	}
+	ip = ip.To16()
+	var groups []string
+	for i := 0; i < 16; i += 2 {
+		groups = append(groups, fmt.Sprintf("%02X%02X", ip[i], ip[i+1]))
+	}
+	return []string{ip.String(), strings.ToUpper(ip.String()), strings.Join(groups, ":"), ip.String() + "%eth0"}
+}
+
+// c12Around: first and last address of a CIDR block and the two addresses just outside it.
+func c12Around(n *net.IPNet) []net.IP {
+	first := append(net.IP{}, n.IP...)
+	last := append(net.IP{}, n.IP...)
+	for i := range last {
+		last[i] |= ^n.Mask[i]
+	}
+	step := func(ip net.IP, up bool) net.IP {
+		o := append(net.IP{}, ip...)
+		for i := len(o) - 1; i >= 0; i-- {
+			if up {
+				o[i]++
+				if o[i] != 0 {
+					return o
+				}
+			} else {
+				o[i]--
+				if o[i] != 0xff {
+					return o
+				}
+			}
+		}
+		return nil // wrapped around: no such neighbour
+	}
+	out := []net.IP{first, last}
+	if b := step(first, false); b != nil {
+		out = append(out, b)
+	}
+	if a := step(last, true); a != nil {
+		out = append(out, a)
+	}
+	return out
+}
+
+func c12EncodingCases() []c12Case {
+	ruleSets := map[string][]c12Rule{
+		"cidr-reject": {
+			{IPRanges: []string{"10.0.0.0/8"}, Action: "REJECT"},
+			{IPRanges: []string{"203.0.113.0/24"}, Action: "REJECT"},
+			{IPRanges: []string{"198.51.100.7/32", "2001:db8:1::/48"}, Action: "PROXY", ProxyNames: []string{"p1"}},
+			{IPRanges: []string{"fd00::/8"}, Action: "REJECT"},
+		},
+		"cidr-narrow-then-wide": {
+			{IPRanges: []string{"203.0.113.128/25"}, Action: "DIRECT"},
+			{IPRanges: []string{"::ffff:203.0.113.0/120"}, Action: "REJECT"},
+			{IPRanges: []string{"2001:db8::/33"}, Action: "DIRECT"},
+			{IPRanges: []string{"2001:db8::/32"}, Action: "REJECT"},
+			{IPRanges: []string{"*"}, Action: "PROXY", ProxyNames: []string{"p2"}},
+		},
+		"suffix-reject": {
+			{Domains: []string{"example.test"}, Action: "REJECT"},
+			{Domains: []string{"test"}, Action: "DIRECT"},
+			{Domains: []string{"*"}, Action: "PROXY", ProxyNames: []string{"p2"}},
+		},
+		"suffix-narrow-then-wide-uppercase-rule": {
+			{Domains: []string{"www.example.test"}, Action: "DIRECT"},
+			{Domains: []string{"EXAMPLE.Test", "Sub.Example.ORG"}, Action: "REJECT"},
+			{Domains: []string{"*"}, Action: "PROXY", ProxyNames: []string{"p1"}},
+		},
+		"mixed": {
+			{IPRanges: []string{"203.0.113.0/24"}, Domains: []string{"example.test"}, Action: "REJECT"},
+			{IPRanges: []string{"*"}, Action: "PROXY", ProxyNames: []string{"p1"}},
+			{Domains: []string{"*"}, Action: "DIRECT"},
+		},
+		"star-only-ip":     {{IPRanges: []string{"*"}, Action: "REJECT"}},
+		"star-only-domain": {{Domains: []string{"*"}, Action: "REJECT"}},
+	}
+	order := []string{"cidr-reject", "cidr-narrow-then-wide", "suffix-reject", "suffix-narrow-then-wide-uppercase-rule", "mixed", "star-only-ip", "star-only-domain"}
+	// every CIDR block and every rule name of every list, probed against every list
+	var texts []string
+	seen := map[string]bool{}
+	add := func(t string) {
+		if !seen[t] && len(t) <= 255 {
+			seen[t] = true
+			texts = append(texts, t)
+		}
+	}
+	for _, name := range order {
+		for _, r := range ruleSets[name] {
+			for _, s := range r.IPRanges {
+				if _, n, err := net.ParseCIDR(s); err == nil {
+					for _, ip := range c12Around(n) {
+						for _, t := range c12LiteralTexts(ip) {
+							add(t)
+						}
+					}
+				}
+			}
+			for _, dn := range r.Domains {
+				if dn == "*" {
+					continue
+				}
+				lo := c12AsciiLower(dn)
+				for _, v := range []string{lo, strings.ToUpper(lo), c12AltCase(lo), strings.ToUpper(lo[:1]) + lo[1:]} {
+					add(v)
+					add("www." + v)
+					add("WWW." + v)
+					add("a.B." + v)
+					add("x" + v)  // not a suffix on a label boundary
+					add(v + "x")  // not the name
+					add(v + ".x") // the name is not the suffix
+				}
+			}
+		}
+	}
+	for _, t := range []string{"8.8.8.8", "::ffff:8.8.8.8", "2001:4860:4860::8888", "OTHER.Example", "plain.example"} {
+		add(t)
+	}
+	var out []c12Case
+	for _, name := range order {
+		cfg := &c12Cfg{Users: c12BaseUsers, Rules: ruleSets[name], Proxies: []string{"p1", "p2"}}
+		for _, t := range texts {
+			for _, cmd := range []byte{1, 3} {
+				for _, u := range []*string{strp("u0"), strp("uP"), strp("uLP")} {
+					if cmd == 3 && *u != "u0" {
+						continue
+					}
+					out = append(out, c12Case{Kind: "find", Cfg: cfg, User: u, Proto: 1, Label: name,
+						Data: core.Hex(c12Req(cmd, c12Dst{FQDN: t, Port: 443, Form: "domain"}))})
+				}
+			}
+		}
+		// the same addresses IP-typed: the binary and the textual encoding must get the same rule
+		for _, r := range ruleSets[name] {
+			for _, s := range r.IPRanges {
+				if _, n, err := net.ParseCIDR(s); err == nil {
+					for _, ip := range c12Around(n) {
+						forms := [][]byte{ip}
+						if len(ip) == 4 {
+							forms = append(forms, c12Mapped(ip))
+						}
+						for _, f := range forms {
+							for _, u := range []*string{strp("u0"), strp("uP"), strp("uLP")} {
+								out = append(out, c12Case{Kind: "find", Cfg: cfg, User: u, Proto: 1, Label: name,
+									Data: core.Hex(c12Req(1, c12IPDst(f, 443)))})
+							}
+						}
+					}
+				}
+			}
+		}
+	}
+	return out
+}
+
 func c12Corpus(c *core.Ctx) {
 	n := socksCorpus(c, func(raw json.RawMessage) {
 		var k c12Case
@@ -1479,6 +1687,11 @@ func init() {
 						}
 					}
 				}
+			}
+			// round 5 (GAP-2, EVERY run, no randomness): a rule speaks about a destination, not about its encoding
+			for _, k := range c12EncodingCases() {
+				c.Hist("rule_encoding", k.Label)
+				c12Run(c, k)
 			}
 			// random addresses through a few configurations
 			for i := 0; i < c.N(2000, 40000); i++ {
